@@ -1,6 +1,371 @@
-//! C05 — not built yet.
+//! C05 — accepted commitments satisfy every mandatory policy bound.
+//!
+//! One group against the Lean model `policy`: a real `Node` + channel per case, validator factory
+//! `SimpleValidatorFactory::new_with_policy(policy)` (optionally wrapped in `OnchainValidatorFactory`),
+//! requests through `Node::setup_channel`, `sign_counterparty_commitment_tx_phase2`,
+//! `validate_holder_commitment_tx_phase2`, `revoke_previous_holder_commitment`,
+//! `validate_counterparty_revocation`.  Monitor: `WithinBounds` evaluated with u128 arithmetic on every
+//! ACCEPTED request (see `c05_world.rs::monitor_commitment`), independent of the model.
 use crate::common::*;
 
+#[path = "c05_world.rs"]
+pub mod world;
+use world::*;
+
+pub struct C05;
+
+const DIV1000: u64 = u64::MAX / 1000; // largest v with v*1000 <= u64::MAX
+
+fn weight(anchors: bool, k: usize) -> u128 {
+    (if anchors { 1124 } else { 724 }) + 172 * k as u128
+}
+
+/// smallest / largest fee whose estimated feerate floor((fee*1000+999)/w) equals `rate`
+fn fee_for_rate(rate: u128, w: u128, hi: bool) -> u128 {
+    if hi {
+        (((rate + 1) * w).saturating_sub(1000)) / 1000
+    } else {
+        (rate * w).saturating_sub(999).div_ceil(1000)
+    }
+}
+
+pub struct Plan {
+    pub pol: Pol,
+    pub setup: SetupNums,
+    pub height: u64,
+}
+
+fn pick_u64(rng: &mut Rng, xs: &[u64]) -> u64 {
+    *rng.pick(xs)
+}
+
+/// policy × setup with bounds drawn around each other's edges
+pub fn gen_plan(rng: &mut Rng) -> Plan {
+    let mut pol = Pol::default_testnet();
+    let outbound = rng.chance(1, 2);
+    let value = match rng.below(20) {
+        0 => pick_u64(rng, &[4_294_967_296, 5_000_000_000, 4_000_000_000]),
+        1 => pick_u64(rng, &[DIV1000, DIV1000 - 1, DIV1000 / 2]),
+        2 if !outbound => pick_u64(rng, &[DIV1000 + 1, u64::MAX, u64::MAX - 1, 1 << 63]),
+        3 => pick_u64(rng, &[1_000_000_000, 1_000_000_001, 1_000_000_002]),
+        4 => rng.range(100_000, 50_000_000),
+        _ => pick_u64(rng, &[3_000_000, 10_000_000, 16_777_216, 100_000_000]),
+    };
+    pol.max_chan = match rng.below(8) {
+        0 => value.saturating_sub(1),
+        1 => value,
+        2 => value.saturating_add(1),
+        3 => u64::MAX,
+        _ => pol.max_chan.max(value),
+    };
+    pol.onchain = rng.chance(1, 3);
+    pol.use_chain = rng.chance(1, 3);
+    pol.min_delay = pick_u64(rng, &[4, 4, 4, 4, 4, 4, 0, 1, 6, 7, 144, 65535]);
+    pol.max_delay = pick_u64(rng, &[2016, 2016, 2016, 2016, 2016, 2016, 7, 6, 65535, 144]);
+    pol.min_fee = pick_u64(rng, &[0, 253, 253, 253, 1000, 254]);
+    pol.max_fee = pick_u64(rng, &[333_333, 333_333, 25_000, 1000, 4_294_967, 4_294_967_294, 4_294_967_295]);
+    pol.eps = pick_u64(rng, &[10_000, 0, 1, 1_000_000]);
+    pol.mask = match rng.below(12) {
+        0 => 1 << rng.below(12),
+        1 => (1 << rng.below(12)) | (1 << rng.below(24)),
+        2 if rng.chance(1, 3) => 1 << BIT_PERMISSIVE,
+        _ => 0,
+    };
+    let edge = |rng: &mut Rng, lo: u64, hi: u64| -> u64 {
+        match rng.below(20) {
+            0 => lo.saturating_sub(1),
+            1 => lo,
+            2 => hi,
+            3 => hi.saturating_add(1).min(65535),
+            _ => lo.max(6).min(hi.max(lo)),
+        }
+    };
+    let holder_delay = edge(rng, pol.min_delay, pol.max_delay);
+    let cp_delay = edge(rng, pol.min_delay, pol.max_delay);
+    let ctype = pick_u64(rng, &[1, 1, 1, 3, 3, 3, 1, 3, 1, 3, 1, 3, 1, 3, 0, 2]);
+    let push = if outbound {
+        match rng.below(8) {
+            0 => value.saturating_mul(1000),
+            1 => value.saturating_mul(1000).saturating_add(1),
+            2 => rng.below(value.min(1_000_000)) * 1000 + rng.below(1000),
+            3 => 354_000 + rng.below(3) * 999,
+            _ => 0,
+        }
+    } else {
+        pick_u64(rng, &[0, 0, 1_000_000, u64::MAX])
+    };
+    let height = pick_u64(rng, &[1000, 1000, 700_000, 499_999_000, 499_997_900, 4_294_900_000, 4_294_967_290]);
+    Plan {
+        pol,
+        setup: SetupNums { outbound, value, push, holder_delay, cp_delay, ctype, upfront: 0, up_spend: false, up_allow: false },
+        height,
+    }
+}
+
+/// one commitment content aimed at the edges of `plan`'s bounds; `mutate` = leave exactly one bound
+pub fn gen_commit(rng: &mut Rng, plan: &mut Plan, n: u64, mutate: bool, tune: bool) -> Commit {
+    let pol = &mut plan.pol;
+    let s = &plan.setup;
+    let anchors = s.anchors();
+    let k_off = if n == 0 && !mutate { 0 } else { rng.below(3) as usize };
+    let k_recv = if n == 0 && !mutate { 0 } else { rng.below(3) as usize };
+    let k = k_off + k_recv;
+    let w = weight(anchors, k);
+    let feerate = pick_u64(rng, &[0, 253, 1000, 7500, 50_000, 4_294_967_295]);
+    let lim_off = if s.zero_fee() { 354 } else { 330 + feerate as u128 * 663 / 1000 } as u64;
+    let lim_recv = if s.zero_fee() { 354 } else { 330 + feerate as u128 * 703 / 1000 } as u64;
+    let (lo_e, hi_e) = if pol.use_chain {
+        ((plan.height + pol.min_delay).min(4_294_967_295), (plan.height + pol.max_delay).min(499_999_999))
+    } else {
+        (1, 499_999_999)
+    };
+    let mut mk = |rng: &mut Rng, lim: u64| -> (u64, u64) {
+        let v = match rng.below(6) {
+            0 => lim,
+            1 => lim + 1,
+            _ => lim + rng.below(20_000),
+        };
+        let e = match rng.below(6) {
+            0 => lo_e,
+            1 => hi_e,
+            _ if hi_e >= lo_e => rng.range(lo_e, hi_e),
+            _ => lo_e,
+        };
+        (v, e)
+    };
+    let mut offered: Vec<(u64, u64)> = (0..k_off).map(|_| mk(rng, lim_off)).collect();
+    let mut received: Vec<(u64, u64)> = (0..k_recv).map(|_| mk(rng, lim_recv)).collect();
+    // --- choose which bound to leave (if any) ---
+    let which = if mutate { rng.below(12) } else { 99 };
+    match which {
+        0 if !offered.is_empty() => offered[0].0 = lim_off.saturating_sub(1 + rng.below(2) * 300),
+        1 if !received.is_empty() => received[0].0 = lim_recv.saturating_sub(1),
+        2 if k > 0 => {
+            let e = pick_u64(rng, &[500_000_000, 500_000_001, 4_294_967_295, lo_e.saturating_sub(1), (hi_e + 1).min(4_294_967_295), 0]);
+            if !offered.is_empty() { offered[0].1 = e } else { received[0].1 = e }
+        }
+        3 if k > 0 => {
+            // extreme HTLC value (msat conversion / sum overflow candidates)
+            let v = pick_u64(rng, &[DIV1000, DIV1000 + 1, u64::MAX, u64::MAX / 2 + 1, DIV1000 - 250]);
+            if !offered.is_empty() { offered[0].0 = v } else { received[0].0 = v }
+        }
+        _ => {}
+    }
+    let sum_htlc: u128 = offered.iter().chain(received.iter()).map(|(v, _)| *v as u128).sum();
+    if tune {
+        // move the count / in-flight limits next to this commitment
+        match rng.below(8) {
+            0 => pol.max_htlcs = (k as u64).saturating_sub(1),
+            1 => pol.max_htlcs = k as u64,
+            2 => pol.max_htlcs = k as u64 + 1,
+            _ => {}
+        }
+        if sum_htlc <= u64::MAX as u128 {
+            match rng.below(8) {
+                0 => pol.max_htlc_value = (sum_htlc as u64).saturating_sub(1),
+                1 => pol.max_htlc_value = sum_htlc as u64,
+                2 => pol.max_htlc_value = (sum_htlc as u64).saturating_add(1),
+                3 => pol.max_htlc_value = u64::MAX,
+                _ => {}
+            }
+        }
+    }
+    // --- fee ---
+    let (minf, maxf) = (pol.min_fee as u128, pol.max_fee as u128);
+    let mut fee: u128 = match rng.below(10) {
+        0 => fee_for_rate(minf, w, false),
+        1 => fee_for_rate(maxf, w, true),
+        2 => fee_for_rate(maxf, w, false),
+        _ => {
+            let r = if maxf > minf { minf + (rng.next() as u128 % (maxf - minf + 1).min(20_000)) } else { minf };
+            fee_for_rate(r, w, rng.chance(1, 2))
+        }
+    };
+    if which == 4 {
+        fee = match rng.below(8) {
+            0 => fee_for_rate(minf, w, false).saturating_sub(1),
+            1 => fee_for_rate(maxf, w, true) + 1,
+            2 => (1u128 << 32) * w / 1000 + rng.below(1000) as u128, // `as u32` truncation region
+            3 => (1u128 << 32) * w / 1000 + fee_for_rate(minf + 700, w, false),
+            4 => DIV1000 as u128 + 1 + rng.below(3) as u128,         // fee*1000 overflows u64
+            5 => DIV1000 as u128 - rng.below(2) as u128,
+            6 => s.value as u128,
+            _ => 0,
+        };
+    }
+    let avail = (s.value as u128).saturating_sub(fee).saturating_sub(sum_htlc);
+    let avail = avail.min(u64::MAX as u128) as u64;
+    let (mut to_holder, mut to_cp);
+    if n == 0 && s.outbound {
+        to_cp = (s.push / 1000).min(avail);
+        to_holder = avail - to_cp;
+    } else {
+        to_cp = match rng.below(6) {
+            0 => 0,
+            1 => 354.min(avail),
+            2 => avail,
+            _ => rng.below(avail.saturating_add(1).max(1)),
+        };
+        if to_cp > 0 && to_cp < 354 { to_cp = 0 }
+        to_holder = avail - to_cp;
+        if to_holder > 0 && to_holder < 354 {
+            to_holder = 0; // becomes fee
+        }
+    }
+    match which {
+        5 => to_cp = pick_u64(rng, &[1, 353, 329]),
+        6 => to_holder = pick_u64(rng, &[1, 353]),
+        7 => to_cp = to_cp.saturating_add(1),                         // outputs exceed value by one / fundee overpaid
+        8 => to_holder = pick_u64(rng, &[u64::MAX, u64::MAX - to_cp, u64::MAX / 2 + 1]),
+        9 => to_cp = pick_u64(rng, &[u64::MAX, u64::MAX - to_holder]),
+        10 if n == 0 && s.outbound => to_cp = s.push / 1000 + 1,
+        _ => {}
+    }
+    Commit { n, feerate, to_holder, to_cp, offered, received }
+}
+
+impl Group for C05 {
+    fn property(&self) -> &'static str {
+        "C05"
+    }
+    fn model(&self) -> Option<&'static str> {
+        Some("policy")
+    }
+    fn rule(&self) -> &'static str {
+        "non-trivial = at least one request accepted by the real signer AND at least one refused (or a panic) in the same case; every case draws policy bounds, setup and commitment contents around each other's edges"
+    }
+    fn budget(&self, tier: Tier) -> usize {
+        match tier {
+            Tier::Quick => 2500,
+            Tier::Thorough => 40000,
+        }
+    }
+    fn corpus(&self) -> Vec<Vec<String>> {
+        let v = |s: &[&str]| s.iter().map(|x| x.to_string()).collect::<Vec<_>>();
+        vec![
+            // F5 witness (DESIGN.md §4): 31 BTC fee on weight 724 must be refused after the fix
+            v(&[
+                "policy 0 4 2016 5000000000 10000 1000 16777216 0 253 333333 222000 0",
+                "setup 1 4000000000 0 6 7 1 0 0 0",
+                "cp 0 0 1000 890442954 0 0 0",
+                "cp 0 0 1000 3999758667 0 0 0",
+                "cp 0 0 1000 3999758666 0 0 0",
+            ]),
+            // default policy, plain life cycle with an HTLC, retry, stale and future numbers
+            v(&[
+                "policy 0 4 2016 1000000001 10000 1000 16777216 0 253 333333 222000 0",
+                "setup 1 3000000 0 6 7 1 0 0 0",
+                "cp 0 0 0 2999000 0 0 0",
+                "hold 0 0 2999000 0 0 0 1",
+                "revoke 0",
+                "cp 1 0 1000 1989000 1000000 1 10000 500 0",
+                "cp 1 0 1000 1989000 1000000 1 10000 500 0",
+                "cp 1 0 1000 1989001 999999 1 10000 500 0",
+                "hold 1 1000 1989000 1000000 1 10000 500 0 1",
+                "hold 1 1000 1989000 1000000 1 10000 500 0 0",
+                "revoke 1",
+                "cp 3 0 1000 1989000 1000000 0 0",
+                "cprevoke 0",
+                "cp 2 0 1000 1999000 1000000 0 0",
+                "hold 0 0 2999000 0 0 0 1",
+            ]),
+            // finding C05-S1: max_feerate_per_kw = u32::MAX behaves as "no bound" (the whole 50 BTC is fee)
+            v(&[
+                "policy 0 4 2016 10000000000 10000 1000 16777216 0 253 4294967295 222000 0",
+                "setup 0 5000000000 0 6 7 1 0 0 0",
+                "cp 0 0 0 0 0 0 0",
+            ]),
+            // on-chain validator: unburied funding, then buried, then closed on chain
+            v(&[
+                "policy 1 4 2016 1000000001 10000 1000 16777216 0 253 333333 222000 0",
+                "setup 0 3000000 0 6 7 3 0 0 0",
+                "cp 0 0 0 0 2998000 0 0",
+                "cp 1 0 0 0 2998000 0 0",
+                "chain 1000 1 0",
+                "cp 1 0 0 0 2998000 0 0",
+                "chain 1000 1 1",
+                "cp 1 0 0 0 2998000 0 0",
+                "hold 0 0 0 2998000 0 0 1",
+            ]),
+        ]
+    }
+    fn gen_case(&self, rng: &mut Rng, _tier: Tier) -> Vec<String> {
+        let mut plan = gen_plan(rng);
+        let mut ops = Vec::new();
+        let mut body: Vec<String> = Vec::new();
+        // expected counters if everything valid is accepted
+        let (mut nh, mut nc, mut nr) = (0u64, 0u64, 0u64);
+        let mut pending = false;
+        let steps = 3 + rng.below(7);
+        let mut chain_set = false;
+        let first_policy = plan.pol.line();
+        for step in 0..steps {
+            let pol_before = plan.pol.line();
+            if (plan.pol.onchain || plan.pol.use_chain) && (!chain_set || rng.chance(1, 6)) {
+                let fd = pick_u64(rng, &[0, 1, 1, 1, 2, 6]);
+                let cd = pick_u64(rng, &[0, 0, 0, 0, 1]);
+                body.push(format!("chain {} {} {}", plan.height, fd, cd));
+                chain_set = true;
+            }
+            let mutate = rng.chance(2, 5);
+            let tune = step == 0 || rng.chance(1, 4);
+            match rng.below(10) {
+                0..=3 => {
+                    // counterparty commitment
+                    let n = match rng.below(12) {
+                        0 => nc + 1,
+                        1 => nc.saturating_sub(1),
+                        2 => pick_u64(rng, &[u64::MAX, u64::MAX - 1, 1 << 48]),
+                        _ => nc,
+                    };
+                    let cm = gen_commit(rng, &mut plan, n, mutate, tune);
+                    if plan.pol.line() != pol_before { body.push(plan.pol.line()) }
+                    let pv = if rng.chance(1, 15) { 1 } else { 0 };
+                    body.push(cm.cp_line(pv));
+                    if rng.chance(1, 6) {
+                        // retry, same or slightly changed content
+                        let mut cm2 = cm.clone();
+                        if rng.chance(1, 2) { cm2.to_holder = cm2.to_holder.wrapping_add(1) }
+                        body.push(cm2.cp_line(0));
+                    }
+                    if n == nc && !mutate && (n <= nr + 1) { nc += 1 }
+                }
+                4..=6 => {
+                    let n = match rng.below(12) {
+                        0 => nh + 1,
+                        1 => nh + 2,
+                        2 => nh.saturating_sub(1),
+                        3 => pick_u64(rng, &[u64::MAX, u64::MAX - 1]),
+                        _ => nh,
+                    };
+                    let cm = gen_commit(rng, &mut plan, n, mutate, tune);
+                    if plan.pol.line() != pol_before { body.push(plan.pol.line()) }
+                    body.push(cm.hold_line(!rng.chance(1, 12)));
+                    if n == nh && !mutate { pending = true }
+                    if rng.chance(1, 8) { body.push(cm.hold_line(true)) }
+                }
+                7..=8 => {
+                    let n = if rng.chance(1, 8) { nh + 1 } else { nh };
+                    body.push(format!("revoke {}", n));
+                    if n == nh && pending { nh += 1; pending = false }
+                }
+                _ => {
+                    let n = if rng.chance(1, 6) { nr + 1 } else { nr };
+                    body.push(format!("cprevoke {}", n));
+                    if n == nr && nc >= nr + 2 { nr += 1 }
+                }
+            }
+        }
+        ops.push(first_policy);
+        ops.push(plan.setup.line());
+        ops.extend(body);
+        ops
+    }
+    fn exec_case(&self, ops: &[String]) -> CaseOut {
+        run_case(ops)
+    }
+}
+
 pub fn groups() -> Vec<Box<dyn Group>> {
-    vec![]
+    vec![Box::new(C05)]
 }
